@@ -432,7 +432,9 @@ func runC09(ctx *Ctx) *Result {
 			if f1 != nil && f1.Kind == "notfound" {
 				// a consistent NotFound means somebody really removed the pod: the controller re-creates it
 				// together with claims the removed (e.g. adopted, claim-less) pod never had
-				a, b = dropPrefix(a, "claim "), dropPrefix(b, "claim ")
+				// ... and at whatever revision its ordinal calls for now, while the twin kept (adopted) the old
+				// pod with its old revision, which in turn keeps that revision alive in the history
+				a, b = weakenForRemovedPod(a), weakenForRemovedPod(b)
 			}
 			if strings.Join(a, "\n") != strings.Join(b, "\n") {
 				report("final-state-differs-from-twin", "final state differs from the fault-free run: "+diffLines(a, b), plan, run)
@@ -504,6 +506,20 @@ func runC09(ctx *Ctx) *Result {
 		res.Stats["violations_"+k] = n
 	}
 	return res
+}
+
+func weakenForRemovedPod(l []string) []string {
+	var out []string
+	for _, x := range dropPrefix(dropPrefix(l, "claim "), "revision ") {
+		if strings.Contains(x, " status updated=") {
+			continue
+		}
+		if i := strings.Index(x, " rev="); i >= 0 && strings.HasPrefix(x, "pod ") {
+			x = x[:i]
+		}
+		out = append(out, x)
+	}
+	return out
 }
 
 func dropPrefix(l []string, p string) []string {
